@@ -165,6 +165,46 @@ def run(chk):
         chk.fail("an unreachable strict BH-fraction target raises ValueError", dict(f_BH=0.9), "no error")
     except ValueError:
         pass
+    # the reachable window with natal kicks: the largest reachable fraction is the one left AFTER the kicks
+    # (computed here by hand from a plain model without kicks / ejection and kicks.natal_kicks on copies of its BH bins)
+    for kk in ([dict(kick_method="maxwellian", vesc=20), dict(kick_method="maxwellian", vesc=90), dict(kick_method="sigmoid", vesc=60)]
+               if chk.tier == "quick" else
+               [dict(kick_method=m_, vesc=v_) for m_ in ("maxwellian", "sigmoid") for v_ in (15, 20, 40, 60, 90, 200)]):
+        kwb = dict(BASE, tout=[float(rng.choice([3000.0, 9000.0, 12000.0]))], FeH=float(rng.choice([-1.0, -2.0, -0.5])))
+        with warnings.catch_warnings():
+            warnings.simplefilter("ignore")
+            plain = emf.EvolvedMF.from_powerlaw(BH_ret_dyn=1.0, natal_kicks=False, **kwb)
+            probe = emf.EvolvedMFWithBH.from_powerlaw(f_BH=0.0, natal_kicks=True, strict_BH_target=False, **kwb, **kk)
+        Mb, Nb = plain.Mr.BH[-1].copy(), plain.Nr.BH[-1].copy()
+        Mtot = float(plain.Ms[-1].sum() + sum(x[-1].sum() for x in plain.Mr))
+        f_formed = float(Mb.sum()) / Mtot
+        *_, kicked = kicks.natal_kicks(Mb, Nb, **probe._kick_kw)
+        f_after = (float(plain.Mr.BH[-1].sum()) - float(kicked)) / (Mtot - float(kicked))
+        case0 = dict(kwb, **kk, f_formed=f_formed, f_after_kicks=f_after)
+        chk.note_distinct(case0)
+        if not (0 < f_after < f_formed * (1 - 1e-6)):
+            chk.count("kick configuration removing (almost) nothing or everything: window empty")
+            continue
+        for tgt, reachable in ((0.5 * f_after, True), (0.98 * f_after, True), (f_after + 0.3 * (f_formed - f_after), False),
+                               (f_after + 0.9 * (f_formed - f_after), False), (1.05 * f_formed, False)):
+            for strict in (True, False):
+                case = dict(case0, f_BH=tgt, strict=strict)
+                try:
+                    with warnings.catch_warnings(record=True) as w:
+                        warnings.simplefilter("always")
+                        m = emf.EvolvedMFWithBH.from_powerlaw(f_BH=tgt, natal_kicks=True, strict_BH_target=strict, **kwb, **kk)
+                    got = float(m.Mr.BH[-1].sum()) / float(m.Ms[-1].sum() + sum(x[-1].sum() for x in m.Mr))
+                    out = ("Ok", got, len(w))
+                except ValueError:
+                    out = ("Err", "ValueError")
+                chk.count("BH-fraction targets around the kick window")
+                if reachable:
+                    if out[0] != "Ok" or abs(out[1] - tgt) > 1e-6 * tgt:
+                        chk.fail("a reachable BH-fraction target is accepted and met", case, out)
+                elif strict and out != ("Err", "ValueError"):
+                    chk.fail("an unreachable strict BH-fraction target raises ValueError", case, out)
+                elif not strict and (out[0] != "Ok" or out[2] == 0):
+                    chk.fail("an unreachable non-strict BH-fraction target is reported by a warning", case, out)
     for mb, a in ([[0.1, 0.5, 0.5, 100], [-1, -2, -3]], [[0.1, 1.0, 0.5], [-1, -2]], [[0.1, 1.0], [-1, -2]], [[1.0], []], [[0.1, 1.0, 100], [-1.3, -2.3]]):
         try:
             masses.PowerLawIMF(mb, a)
